@@ -231,7 +231,23 @@ def harness_build(features_default=True, timeout=1500, release=False):
     return rc == 0, out, os.path.join(tdir, "release" if release else "debug", "pv")
 
 
-def run_harness(binpath, lines, timeout_ms=5000, wall=600):
+HUNG_MARKS = ("OHung", "EStuck", "ELivelock", "EDeadlock")
+
+
+def run_harness(binpath, lines, timeout_ms=5000, wall=600, retry=True):
+    """runs the lines through the harness; a line that produced no output or a watchdog verdict (the machine may simply be
+    overloaded) is re-run once, alone, with a six times longer watchdog - a real hang hangs again and is reported as before"""
+    out = run_harness_once(binpath, lines, timeout_ms, wall)
+    if retry:
+        again = [i for i, o in enumerate(out) if o is None or any(m in o for m in HUNG_MARKS)]
+        for i in again[:40]:
+            o2 = run_harness_once(binpath, [lines[i]], timeout_ms * 6, 240)
+            if o2 and o2[0] is not None:
+                out[i] = o2[0]
+    return out
+
+
+def run_harness_once(binpath, lines, timeout_ms=5000, wall=600):
     """runs scenario lines through the harness (sharded over processes); returns list of output lines (None if missing)"""
     if not lines: return []
     nsh = min(NPROC, max(1, len(lines) // 20))
